@@ -1,6 +1,6 @@
 (* Property C11 — cache serialization is faithful (binary layer).  Statements only. *)
 From Coq Require Import ZArith List String Bool.
-From C11 Require Import Prim Schema ProofsPrim ProofsSchema ProofsGen.
+From C11 Require Import Prim Schema Tables ProofsPrim ProofsSchema Json ProofsJson Types ProofsTypes ProofsGen.
 From Gen Require Import Schemas.
 Import ListNotations.
 Open Scope Z_scope.
@@ -55,53 +55,106 @@ Proof. exact unpack_pack. Qed.
 Print Assumptions flags_roundtrip.
 
 (* L1: every matched writer/reader schema pair round-trips, for all values, given the same for
-   nested objects and external codecs *)
+   nested objects and external codecs (generic form; closed instances below) *)
 Theorem schema_roundtrip :
-  forall obj_write obj_read ext_write ext_read,
-    (forall t fs bs rest, obj_write t fs = Some bs -> obj_read t (bs ++ rest) = Some (fs, rest)) ->
+  forall obj_write obj_read ext_write ext_read obj_fits,
+    (forall t fs bs rest, obj_write t fs = Some bs -> obj_fits t fs = true -> obj_read t (bs ++ rest) = Some (fs, rest)) ->
     (forall k p bs rest, ext_write k p = Some bs -> ext_read k (bs ++ rest) = Some (p, rest)) ->
     forall w r, ops_match w r = true ->
     forall vs bs rest,
-      write_op obj_write ext_write w vs = Some (bs, []) -> fits r vs = Some [] ->
+      write_op obj_write ext_write w vs = Some (bs, []) -> fits obj_fits r vs = Some [] ->
       read_op obj_read ext_read r (bs ++ rest) = Some (vs, rest).
 Proof. exact schema_roundtrip_gen. Qed.
 Print Assumptions schema_roundtrip.
 
 Theorem schema_injective :
-  forall obj_write obj_read ext_write ext_read,
-    (forall t fs bs rest, obj_write t fs = Some bs -> obj_read t (bs ++ rest) = Some (fs, rest)) ->
+  forall obj_write obj_read ext_write ext_read obj_fits,
+    (forall t fs bs rest, obj_write t fs = Some bs -> obj_fits t fs = true -> obj_read t (bs ++ rest) = Some (fs, rest)) ->
     (forall k p bs rest, ext_write k p = Some bs -> ext_read k (bs ++ rest) = Some (p, rest)) ->
     forall w r, ops_match w r = true ->
     forall v1 v2 b1 b2 r1 r2,
-      write_op obj_write ext_write w v1 = Some (b1, []) -> fits r v1 = Some [] ->
-      write_op obj_write ext_write w v2 = Some (b2, []) -> fits r v2 = Some [] ->
+      write_op obj_write ext_write w v1 = Some (b1, []) -> fits obj_fits r v1 = Some [] ->
+      write_op obj_write ext_write w v2 = Some (b2, []) -> fits obj_fits r v2 = Some [] ->
       b1 ++ r1 = b2 ++ r2 -> v1 = v2 /\ r1 = r2.
 Proof. exact schema_injective_gen. Qed.
 Print Assumptions schema_injective.
 
-(* the schemas regenerated from the current source all match *)
+(* the schemas regenerated from the current source all match (ops and field names) *)
 Theorem extracted_schemas_match : forallb entry_ok schemas = true.
 Proof. exact all_match. Qed.
 Print Assumptions extracted_schemas_match.
 
-Theorem extracted_class_roundtrip_partial :
-  forall obj_write obj_read ext_write ext_read,
-    (forall t fs bs rest, obj_write t fs = Some bs -> obj_read t (bs ++ rest) = Some (fs, rest)) ->
-    (forall k p bs rest, ext_write k p = Some bs -> ext_read k (bs ++ rest) = Some (p, rest)) ->
-    forall name w r, In (name, (w, r)) schemas ->
-    forall vs bs rest,
-      write_op obj_write ext_write w vs = Some (bs, []) -> fits r vs = Some [] ->
-      read_op obj_read ext_read r (bs ++ rest) = Some (vs, rest).
-Proof. exact extracted_roundtrip. Qed.
-Print Assumptions extracted_class_roundtrip_partial.
+(* field names: every value is stored into the attribute it was taken from (same name sequence in write and read) *)
+Theorem extracted_field_names_match : forallb names_ok names = true.
+Proof. exact names_all_match. Qed.
+Print Assumptions extracted_field_names_match.
+
+(* JSON and binary store the same attribute set per class (up to the exceptions listed in the table), and
+   serialize()/deserialize() use the same key set *)
+Theorem formats_agree : forallb format_ok format_fields = true /\ forallb keys_ok json_keys = true.
+Proof. exact formats_agree_table. Qed.
+Print Assumptions formats_agree.
+
+(* L2: external codecs, proved *)
+Theorem literal_roundtrip : forall p bs rest, lit_write p = Some bs -> lit_read (bs ++ rest) = Some (p, rest).
+Proof. exact lit_ok. Qed.
+Print Assumptions literal_roundtrip.
+
+Theorem json_value_roundtrip : forall k p bs rest,
+  json_write k p = Some bs -> json_read k (bs ++ rest) = Some (p, rest).
+Proof. exact json_codec_ok. Qed.
+Print Assumptions json_value_roundtrip.
+
+(* L2: the hand-modelled classes (Instance generic form, SymbolTable, SymbolTableNode) and every extracted object
+   class match *)
+Theorem all_object_classes_match : forallb class_ok all_classes = true.
+Proof. exact all_classes_match. Qed.
+Print Assumptions all_object_classes_match.
+
+(* L2: the recursion is closed -- every object of every class (regular, Instance with all fast paths, SymbolTable,
+   SymbolTableNode) at any nesting depth, with the concrete literal and JSON codecs; no hypotheses *)
+Theorem object_roundtrip : forall n t fs bs rest,
+  OW n t fs = Some bs -> obj_wf n t fs = true -> OR n t (bs ++ rest) = Some (fs, rest).
+Proof. exact closed_obj. Qed.
+Print Assumptions object_roundtrip.
+
+Theorem type_roundtrip : forall n t bs rest,
+  write_type json_write n t = Some bs -> wf_type n t = true -> read_type json_read n (bs ++ rest) = Some (t, rest).
+Proof. exact closed_type. Qed.
+Print Assumptions type_roundtrip.
+
+(* a whole cache data file: MypyFile.read (MypyFile.write tree) = tree *)
+Theorem data_file_roundtrip : forall n fs bs rest,
+  write_file json_write n fs = Some bs -> obj_wf n MYPY_FILE fs = true -> read_file json_read n (bs ++ rest) = Some (fs, rest).
+Proof. exact closed_file. Qed.
+Print Assumptions data_file_roundtrip.
+
+Theorem data_file_injective : forall n f1 f2 b,
+  write_file json_write n f1 = Some b -> write_file json_write n f2 = Some b ->
+  obj_wf n MYPY_FILE f1 = true -> obj_wf n MYPY_FILE f2 = true -> f1 = f2.
+Proof. exact closed_file_injective. Qed.
+Print Assumptions data_file_injective.
+
+(* every extracted class / helper / record (CacheMeta, CacheMetaEx, FileRawData ...) with the concrete codecs *)
+Theorem extracted_class_roundtrip : forall n name w r, In (name, (w, r)) schemas ->
+  forall vs bs rest,
+    write_op (OW n) EW w vs = Some (bs, []) -> fits (obj_wf n) r vs = Some [] ->
+    read_op (OR n) ER r (bs ++ rest) = Some (vs, rest).
+Proof. exact closed_extracted. Qed.
+Print Assumptions extracted_class_roundtrip.
 
 (* hypotheses are satisfiable on non-trivial data *)
 Example hypotheses_satisfiable :
   ops_match demo_schema demo_schema = true /\
   (exists bs, write_op no_obj_w no_ext_w demo_schema demo_value = Some (bs, []) /\
               read_op no_obj_r no_ext_r demo_schema (bs ++ [7]) = Some (demo_value, [7])) /\
-  fits demo_schema demo_value = Some [].
+  fits no_obj_f demo_schema demo_value = Some [].
 Proof. exact demo_hyps. Qed.
+
+Example nested_type_roundtrips :
+  wf_type 6 t_dict = true /\
+  exists bs, write_type json_write 6 t_dict = Some bs /\ read_type json_read 6 (bs ++ [9]) = Some (t_dict, [9]).
+Proof. exact demo_type. Qed.
 
 Example write_int_examples :
   write_int (-11) = Some [101; 1] /\ write_int 536860912 = Some [15; 36; 240; 216; 255; 31] /\
